@@ -2,8 +2,14 @@
 package main
 
 import (
+	"fmt"
 	"math"
+	"os"
 	"strings"
+	"sync"
+	"time"
+
+	"github.com/songzhibin97/go-baseutils/base/bcomparator"
 
 	"vh/vhlib"
 )
@@ -263,4 +269,153 @@ func coqList(items []string) string {
 		parts = append(parts, "["+strings.Join(items[i:j], "; ")+"]")
 	}
 	return "(" + strings.Join(parts, " ++ ") + ")"
+}
+
+// ---------------- comparator shapes and key spreads ----------------
+// The property quantifies over every comparator that is a total preorder; a Go comparator may return any int.
+// Every stream builds the real containers with each of these shapes (NewWith...), over key universes whose
+// differences cross 127/128, 255/256, 32767/32768 and 2^31. |keys| stay below 2^40 so that a-b and the scaled
+// variants do not overflow a 64-bit int (the Coq side computes in Z).
+type cmpCfg struct {
+	coq    string // constructor of C01/CmpSel.v
+	f      bcomparator.Comparator[int]
+	spread int // universe index i -> key i*spread
+}
+
+func clamp3(a, b int) int {
+	d := a - b
+	if d > 3 {
+		return 3
+	}
+	if d < -3 {
+		return -3
+	}
+	return d
+}
+
+var (
+	cmpInt     = bcomparator.IntComparator()
+	cmpSub     = bcomparator.Comparator[int](func(a, b int) int { return a - b })
+	cmpDesc    = bcomparator.Comparator[int](func(a, b int) int { return b - a })
+	cmpScale7  = bcomparator.Comparator[int](func(a, b int) int { return (a - b) * 7 })
+	cmpDescBig = bcomparator.Comparator[int](func(a, b int) int { return (b - a) * 1000003 })
+	cmpClamp   = bcomparator.Comparator[int](clamp3)
+)
+
+var plainCfg = cmpCfg{"CInt", cmpInt, 1}
+
+// rotation used by the exhaustive streams (the built-in comparator on dense keys keeps every third slot)
+var cmpCfgs = []cmpCfg{
+	plainCfg,
+	{"CSub", cmpSub, 64},
+	{"CDesc", cmpDesc, 256},
+	plainCfg,
+	{"CScale7", cmpScale7, 40},
+	{"CDescBig", cmpDescBig, 3000}, // results cross 2^31 with small keys
+	plainCfg,
+	{"CClamp", cmpClamp, 1},
+	{"CSub", cmpSub, 8191},
+	{"CInt", cmpInt, 300},
+	{"CDesc", cmpDesc, 1},
+	{"CSub", cmpSub, 1<<31 + 1}, // the one slot with huge keys: differences cross 2^31
+	{"CScale7", cmpScale7, 5000},
+	{"CClamp", cmpClamp, 100},
+	{"CDescBig", cmpDescBig, 3},
+}
+
+const keyLimit = 1 << 40
+
+// pickCfg: a comparator shape and spread for an operation list whose keys (and values, for the bidi-map) have
+// absolute value at most maxAbs before spreading
+func pickCfg(rng *vhlib.Rng, maxAbs int) cmpCfg {
+	if maxAbs < 1 {
+		maxAbs = 1
+	}
+	for tries := 0; tries < 50; tries++ {
+		c := cmpCfgs[rng.Intn(len(cmpCfgs))]
+		if maxAbs <= keyLimit/c.spread {
+			return c
+		}
+	}
+	return plainCfg
+}
+
+func maxAbsKey(ops []mop, withValues bool) int {
+	m := 0
+	up := func(x int) {
+		if x < 0 {
+			x = -x
+		}
+		if x < 0 || x > m { // x < 0: MinInt64
+			m = x
+			if x < 0 {
+				m = math.MaxInt64
+			}
+		}
+	}
+	for _, o := range ops {
+		up(o.k)
+		if withValues && o.kind == 0 {
+			up(o.v)
+		}
+	}
+	return m
+}
+
+// spreadOps maps keys (and bidi-map values) i -> i*spread
+func spreadOps(ops []mop, c cmpCfg, withValues bool) []mop {
+	r := make([]mop, len(ops))
+	for i, o := range ops {
+		o.k *= c.spread
+		if withValues {
+			o.v *= c.spread
+		}
+		r[i] = o
+	}
+	return r
+}
+
+// ---------------- watchdog ----------------
+// A defect that corrupts the pointer structure (e.g. a parent-link cycle) can make a call of the real container
+// loop forever. Every real call runs under guard(); if one does not return within hangLimit the watchdog records
+// it as a direct violation (decided outside Coq, CONVENTIONS item 5), writes meta.json and ends the run.
+const hangLimit = 20 * time.Second
+
+var wd struct {
+	mu     sync.Mutex
+	active bool
+	since  time.Time
+	what   string
+	detail interface{}
+}
+var curLabel string // label of the case being generated
+
+func guard(what string, detail interface{}, f func()) (bool, interface{}) {
+	wd.mu.Lock()
+	wd.active, wd.since, wd.what, wd.detail = true, time.Now(), what, detail
+	wd.mu.Unlock()
+	p, v := vhlib.Recover(f)
+	wd.mu.Lock()
+	wd.active = false
+	wd.mu.Unlock()
+	return p, v
+}
+
+func startWatchdog(w *vhlib.Writer, o vhlib.Opts, rule string) {
+	go func() {
+		for {
+			time.Sleep(500 * time.Millisecond)
+			wd.mu.Lock()
+			hung := wd.active && time.Since(wd.since) > hangLimit
+			what, detail := wd.what, wd.detail
+			wd.mu.Unlock()
+			if hung {
+				// the main goroutine is stuck inside the library call: the writer is not in use
+				w.Violation(curLabel, what+": call does not return (hang)", detail)
+				w.Notes["watchdog"] = fmt.Sprintf("run ended early: %s did not return within %s in case %s", what, hangLimit, curLabel)
+				w.Close(o, rule)
+				os.Exit(0)
+			}
+		}
+	}()
 }
